@@ -56,7 +56,7 @@ def options(draw):
 def any_deck(draw, tier='quick'):
     which = draw(st.sampled_from(['level0', 'hier', 'hier', 'lattice',
                                   'lattice', 'hex', 'prune', 'prune', 'tr',
-                                  'tr']))
+                                  'tr', 'twin']))
     if which == 'level0':
         case = draw(c01.level0_case(tier))
         case['box'] = 6.0
@@ -68,6 +68,8 @@ def any_deck(draw, tier='quick'):
                                               'empty_pieces': True}))
     elif which == 'prune':
         case = draw(gen_hier.prune_case(tier))
+    elif which == 'twin':
+        case = draw(gen_hier.twin_fill_case(tier, mirrors=True))
     elif which == 'tr':
         from . import c04
         case = draw(c04.tr_case(tier, focus=draw(st.sampled_from([None, 'axis', 'axis']))))
@@ -86,7 +88,7 @@ def strategy(tier):
 
 def budget(tier):
     if tier == 'quick':
-        return {'max_examples': 640, 'shards': 8, 'time_budget': 110}
+        return {'max_examples': 1280, 'shards': 16, 'time_budget': 110}
     return {'max_examples': 64000, 'shards': 16, 'time_budget': 1800}
 
 
